@@ -100,7 +100,8 @@ def step (s : Option St) (line : String) : Option St × String :=
     match nat? h, nat? pr, nat? n, bool? ex, csv? mem, csv? pk with
     | some h, some pr, some n, some ex, some mem, some pk =>
       let env : Env := { hash := h, prevRandom := pr, groupSize := n, pkKnown := pk, blockExists := ex,
-                         bindsHash := Rangers.Generated.C15Facts.bindsHash }
+                         bindsHash := Rangers.Generated.C15Facts.bindsHash,
+                         startRecovers := Rangers.Generated.C15Facts.startRecovers }
       let k := groupK n
       (some { env := env, members := mem, k := k, early := [], proc := none }, s!"ok k={k}")
     | _, _, _, _, _, _ => (s, "bad-op")
@@ -108,7 +109,8 @@ def step (s : Option St) (line : String) : Option St × String :=
     match nat? h, nat? pr, nat? n, bool? ex, csv? mem, csv? pk, nat? k0 with
     | some h, some pr, some n, some ex, some mem, some pk, some k0 =>
       let env : Env := { hash := h, prevRandom := pr, groupSize := n, pkKnown := pk, blockExists := ex,
-                         bindsHash := Rangers.Generated.C15Facts.bindsHash }
+                         bindsHash := Rangers.Generated.C15Facts.bindsHash,
+                         startRecovers := Rangers.Generated.C15Facts.startRecovers }
       let k := groupK n
       (some { env := env, members := mem, k := k, early := [], proc := none, life := some (Life.new k0) }, s!"ok k={k}")
     | _, _, _, _, _, _, _ => (s, "bad-op")
@@ -178,6 +180,10 @@ def step (s : Option St) (line : String) : Option St × String :=
         (some { st with proc := some r.1 }, showState c st.env r.1 (filedOf w st.env.hash))
       | none => (s, "bad-op")
     | _, _ => (s, "bad-op")
+  | ["groupk", n] =>
+    match nat? n with
+    | some n => (s, s!"k={groupK n}")
+    | none => (s, "bad-op")
   | ["chain", b] =>
     match s, bool? b with
     | some st, some b => (some { st with env := { st.env with blockExists := b } }, "ok")
